@@ -18,8 +18,11 @@
 (*  "sec256"    (length, prefix octet)          x class x y class x mode       *)
 (*  "wif"       a 32-byte exponent              payload shapes x prefix ok/bad *)
 (*  "der"       a blob prefix                   every extension over DerExt    *)
-(*  "dersig"    r                               every s; trailing mutations    *)
-EXTENDS KeyEnc, DerSig, Json
+(*  "dersig"    r                               every s; trailing mutations;   *)
+(*                                              over-announced integer lengths *)
+(*  "derask"    a blob handed in by the harness the machine's verdict on it    *)
+(*              (file named by DER_ASK)         (phase, reason, deviations)    *)
+EXTENDS KeyEnc, DerSig, Json, IOUtils
 
 CONSTANTS Stage,
           SecLens,                              \* "sec256": blob lengths
@@ -257,12 +260,36 @@ Mags == { <<>>, <<0>>, <<1>>, <<127>>, <<128>>, <<255>>, <<1, 0>>, <<0, 0, 1>>, 
           Ones(33, 1), Ones(126, 127), Ones(127, 127), Ones(127, 128), Ones(128, 1), Ones(200, 200), Ones(255, 255), Ones(300, 3) }
 Tails == {<<0>>, <<1>>, <<255>>, <<2, 1, 1>>, <<48, 0>>}
 SigItems == {[r |-> r] : r \in Mags}
+\* The encoding of (r, s) in which the length octets of ONE integer (which = 1: r, 2: s) announce d octets more than
+\* the integer has, everything else unchanged; the SEQUENCE length counts the octets that are there (adj = 0: the
+\* integer then swallows the head of what follows, or runs past the sequence) or is raised as well (adj = d: the
+\* sequence then runs past the blob).  What each such blob IS, is the machine's verdict (exported with the blob).
+EncIntAnn(m, d) == LET z == StripZ(m)
+                       c == IF z[1] >= 128 THEN <<0>> \o z ELSE z
+                   IN <<TagInt>> \o EncLen(Len(c) + d) \o c
+Overrun(r, s, which, d, adj) ==
+  LET a == IF which = 1 THEN EncIntAnn(r, d) ELSE EncInt(r)
+      c == IF which = 2 THEN EncIntAnn(s, d) ELSE EncInt(s)
+  IN <<TagSeq>> \o EncLen(Len(a) + Len(c) + adj) \o a \o c
+OverDs == {1, 2}
+OverSet(r, s) == {Overrun(r, s, w, d, adj) : w \in {1, 2}, d \in OverDs, adj \in {0, 1, 2}}
+\* when it is the LAST integer that announces too much, nothing can make up for the missing octets
+OverrunLemma(r, s) == \A d \in OverDs : \A adj \in {0, d} : Unreadable(DerRun(Overrun(r, s, 2, d, adj)))
 SigEval(it) ==
   [k |-> "dersig", r |-> it.r,
    v |-> {[s |-> s, enc |-> EncSig(it.r, s), rmin |-> StripZ(it.r), smin |-> StripZ(s),
            outer |-> {OuterTrail(EncSig(it.r, s), t) : t \in Tails},
-           inner |-> {InnerTrail(it.r, s, t) : t \in Tails}] : s \in Mags},
-   bad |-> {s \in Mags : ~(DecEnc(it.r, s) /\ EncDec(EncSig(it.r, s)) /\ \A t \in Tails : TrailLemma(it.r, s, t))}]
+           inner |-> {InnerTrail(it.r, s, t) : t \in Tails},
+           over |-> {[b |-> d[1], cls |-> DerClass(d[2]), why |-> d[2].why, r |-> MagOf(d[2].r), s |-> MagOf(d[2].s)]
+                     : d \in {<<b, DerRun(b)>> : b \in OverSet(it.r, s)}}] : s \in Mags},
+   bad |-> {s \in Mags : ~(DecEnc(it.r, s) /\ EncDec(EncSig(it.r, s)) /\ (\A t \in Tails : TrailLemma(it.r, s, t))
+                            /\ OverrunLemma(it.r, s))}]
+
+(* =============================================================== stage "derask" *)
+DerAsk == IF Stage = "derask" THEN JsonDeserialize(IOEnv.DER_ASK) ELSE <<>>
+AskItems == {[i |-> i] : i \in DOMAIN DerAsk}
+AskEval(it) == LET run == DerRun(DerAsk[it.i])
+               IN [k |-> "derask", i |-> it.i, cls |-> DerClass(run), why |-> run.why, dev |-> run.dev, bad |-> {}]
 
 (* ======================================================================= driver *)
 Items == CASE Stage = "sec"    -> SecItems
@@ -273,6 +300,7 @@ Items == CASE Stage = "sec"    -> SecItems
            [] Stage = "wif"    -> WifItems
            [] Stage = "der"    -> DerItems
            [] Stage = "dersig" -> SigItems
+           [] Stage = "derask" -> AskItems
 Eval(it) == CASE Stage = "sec"    -> SecEval(it)
               [] Stage = "secmut" -> MutEval(it)
               [] Stage = "toykey" -> ToyEval(it)
@@ -281,6 +309,7 @@ Eval(it) == CASE Stage = "sec"    -> SecEval(it)
               [] Stage = "wif"    -> WifEval(it)
               [] Stage = "der"    -> DerEval(it)
               [] Stage = "dersig" -> SigEval(it)
+              [] Stage = "derask" -> AskEval(it)
 Header == CASE Stage = "sec" -> SecHeader
             [] Stage = "toykey" -> SecHeader
             [] Stage = "pubrep" -> RepHeader
